@@ -118,10 +118,39 @@ func (lp *RangeLoop) CarriedCond() string {
 			}
 		}
 	}
+	// objects living across iterations (defined outside the loop) that an iteration modifies in place
+	// through a pointer-receiver mutator (big.Int arithmetic and the like)
+	mutated := map[ssa.Value]bool{}
+	for b := range lp.Body {
+		for _, in := range b.Instrs {
+			call, ok := in.(*ssa.Call)
+			if !ok || len(call.Call.Args) == 0 {
+				continue
+			}
+			f := call.Call.StaticCallee()
+			if f == nil || f.Signature.Recv() == nil {
+				continue
+			}
+			if !strings.HasPrefix(CallName(&call.Call), "(*math/big.") {
+				continue
+			}
+			switch f.Name() {
+			case "Set", "SetInt64", "SetUint64", "SetBytes", "SetString", "Add", "Sub", "Mul", "Div", "Mod", "Quo", "Rem", "Neg", "Abs", "Exp", "Lsh", "Rsh", "And", "Or", "Xor", "Not", "SetBit", "DivMod", "QuoRem", "ModInverse", "Sqrt", "SetFloat64", "SetInt", "SetPrec", "SetMode":
+				recv := call.Call.Args[0]
+				if ri, isI := recv.(ssa.Instruction); isI && lp.Body[ri.Block()] {
+					continue // created inside this iteration
+				}
+				mutated[recv] = true
+			}
+		}
+	}
 	var dep func(v ssa.Value, depth int) string
 	dep = func(v ssa.Value, depth int) string {
 		if depth > 6 || v == nil {
 			return ""
+		}
+		if mutated[v] {
+			return "an object that iterations modify in place (" + Desc(v) + ")"
 		}
 		switch x := v.(type) {
 		case *ssa.Phi:
@@ -159,6 +188,12 @@ func (lp *RangeLoop) CarriedCond() string {
 		case *ssa.Call:
 			if bi, ok := x.Call.Value.(*ssa.Builtin); ok && bi.Name() == "len" {
 				return dep(x.Call.Args[0], depth+1)
+			}
+			// a comparison/accessor call on an object modified in place by earlier iterations
+			for _, a := range x.Call.Args {
+				if mutated[a] {
+					return "an object that iterations modify in place (" + Desc(a) + ")"
+				}
 			}
 		}
 		return ""
@@ -327,10 +362,10 @@ func sharedObjectCall(call *ssa.Call) *ssa.Global {
 			recv = x.X
 		case *ssa.Global:
 			t := shortType(x.Type())
-			if strings.Contains(t, "sync.") || strings.Contains(t, "log.Logger") {
-				return nil
+			if strings.Contains(t, "sync.Mutex") || strings.Contains(t, "sync.RWMutex") || strings.Contains(t, "sync.Once") || strings.Contains(t, "sync.WaitGroup") || strings.Contains(t, "sync.Map") || strings.Contains(t, "log.Logger") {
+				return nil // locks carry no value; sync.Map is reported by the cache clause
 			}
-			return x // &global used as receiver
+			return x // &global used as receiver (includes sync.Pool: recycled objects carry earlier contents)
 		default:
 			return nil
 		}
